@@ -4,6 +4,7 @@ import (
 	"go/ast"
 	"go/parser"
 	"go/token"
+	"os"
 	"os/exec"
 	"path/filepath"
 	"runtime"
@@ -105,9 +106,20 @@ func stdFunc(f *ast.File, name string) *ast.FuncDecl {
 	return nil
 }
 
+func pinnedDir() string {
+	root := os.Getenv("VERIF_ROOT")
+	if root == "" {
+		root = "/verif"
+	}
+	return filepath.Join(root, "harness", "pinned")
+}
+
 func genScript(g *fact.Gen) {
 	const ts = "testscript/testscript.go"
 	const cmdgo = "testscript/cmd.go"
+	// the tokenizer itself, translated statement by statement (harness/internal/go2lean)
+	g.TranslateModule("ScriptGo", ts, []string{"TestScript.parse"}, "script",
+		[]string{"GIV.GoLib", "GIV.Model.ScriptParse"}, "GIV.Go.Script", filepath.Join(pinnedDir(), "ScriptGo.lean"))
 
 	emitU8List := func(name, doc string, pinned []byte, v []byte, ok bool, why string) {
 		if !ok {
